@@ -7,7 +7,7 @@ ASSUME = [
     "diagnostic positions are extracted from the error text with the pattern <file>:<line>:<col>",
     "the offending token of a missing type is the end of the line (the implicit ';')",
 ]
-FAULTS = ["badname", "badname8", "nothdr", "unktype", "dupname", "notype", "twodecl", "novar"]
+FAULTS = ["badname", "badname8", "nothdr", "unktype", "dupname", "notype", "twodecl", "novar", "noname", "trailcomma"]
 CFG = """SPECIFICATION Spec
 CONSTANTS
   MaxChanges = %d
@@ -66,7 +66,7 @@ def render(rec):
         meta = [line_text(m) + (trail() if m else "") for m in c["meta"]]      # (an empty line stays empty)
         if faulty and f["m"] > 0:
             # (for "notype" the offending token is the end of the line itself: blanks in front of it would move it)
-            meta.insert(f["m"] - 1, line_text(rec["faultline"]) + ("" if f["k"] == "notype" else trail()))
+            meta.insert(f["m"] - 1, line_text(rec["faultline"]) + ("" if f["k"] in ("notype", "noname", "trailcomma") else trail()))
         out += meta
         out.append("@@")
         out += ["-foo(1)", "+bar(1)"]
